@@ -49,13 +49,14 @@ Definition step_op (op : list tok) : list tok :=
       | TB m :: kv => [TS (if h1_guard m (pairs kv) then "forward" else "refuse")]
       | _ => [TS "badop"] end
     else if name =? "ledger" then
-      (* Content-Length / DATA ledger: ledger <declared? 0|1> <declared> (<0|1 end_stream> <len> | 2)* *)
+      (* Content-Length / DATA ledger: ledger <declared? 0|1> <declared> (<0|1 end_stream> <len> | 2 = trailers | 3 = cancel)* *)
       match args with
       | TN hasd :: TN d :: evs =>
         let fix evl (fuel : nat) (l : list tok) : list ev :=
             match fuel with O => [] | S f =>
             match l with
             | TN 2 :: t => Trailers :: evl f t
+            | TN 3 :: t => Cancel :: evl f t
             | TN k :: TN len :: t => Data (Z.to_N len) (Z.eqb k 1) :: evl f t
             | _ => []
             end end in
